@@ -194,7 +194,7 @@ def class_defaults(clsname, mode2D, impl_props):
 def finals_of(clsname):
     f = []
     for c in ("Point", "OrientedPoint", "Object"):
-        f += DOC_FINALS[c]
+        f += [p for p in DOC_FINALS[c] if p not in f]
         if c == clsname:
             break
     return f
@@ -387,9 +387,13 @@ def judge_builtin(case, res):
             out.cls("unjudged:documented-not-yet-supported")
         elif bad_kinds:
             ex = next(o for o in res["outs"] if o["status"] == "error" and o["kind"] in bad_kinds)
-            out.fail(f"resolve:{profile}|error-kind:{bad_kinds[0]}:expected-"
-                     + "+".join(sorted(ref["kinds"])), source=src, mode2D=mode2D,
-                     message=ex["msg"], where=ex["sig"])
+            if bad_kinds[0].startswith("other:"):
+                out.fail(f"resolve|unexpected-exception:{ex['sig']}", source=src, mode2D=mode2D,
+                         message=ex["msg"], expected_error="+".join(sorted(ref["kinds"])))
+            else:
+                out.fail(f"resolve:{profile}|error-kind:{bad_kinds[0]}:expected-"
+                         + "+".join(sorted(ref["kinds"])), source=src, mode2D=mode2D,
+                         message=ex["msg"], where=ex["sig"])
         elif len(kinds_seen) > 1:
             out.cls("unjudged:several-errors-order")
         return out
@@ -523,6 +527,13 @@ def synthetic_cases(draw):
                              unique=True)) if len(prios) < len(SPROPS) else []
         specs.append({"name": f"S{i}", "prios": prios, "deps": sorted(deps),
                       "modifiable": modifiable})
+    # occasionally a second modifier of a property that an ordinary specifier gives priority 1
+    # ("no property can be modified twice")
+    for p in sorted(have_mod):
+        if any(not sp["modifiable"] and sp["prios"].get(p) == 1 for sp in specs) \
+                and len(specs) < 5 and draw(st.integers(0, 3)) == 0:
+            specs.append({"name": f"S{len(specs)}", "prios": {p: 1}, "deps": [], "modifiable": [p]})
+            break
     # (a modifying specifier never touches a derived property: none of the built-in ones does)
     modprops = {p for sp in specs if sp["modifiable"] for p in sp["prios"]}
     finals = [p for p, f in final_draws.items() if f and p not in modprops]
@@ -606,6 +617,8 @@ def judge_synthetic(case):
     if expected is None:
         allowed = set(ref["kinds"])
         if n_ok and n_ok < len(results):
+            if ref["kinds"] == {"ambiguous"} and shadowed_ambiguity(specs):
+                profile = "shadowed-same-priority"
             out.fail(f"synthetic:{profile}|accepted-in-some-orders:expected-"
                      + "+".join(sorted(ref["kinds"])), **desc,
                      accepted=[list(r[2]) for r in results if r[0] == "ok"][:3])
@@ -616,8 +629,12 @@ def judge_synthetic(case):
             bad = [k for k in kinds_seen if k not in allowed]
             if bad:
                 r = next(r for r in results if r[0] == "error" and r[1] in bad)
-                out.fail(f"synthetic|error-kind:{bad[0]}:expected-" + "+".join(sorted(ref["kinds"])),
-                         **desc, message=r[3], where=r[4])
+                if bad[0].startswith("other:"):
+                    out.fail(f"synthetic|unexpected-exception:{r[4]}", **desc, message=r[3],
+                             expected_error="+".join(sorted(ref["kinds"])))
+                else:
+                    out.fail(f"synthetic|error-kind:{bad[0]}:expected-"
+                             + "+".join(sorted(ref["kinds"])), **desc, message=r[3], where=r[4])
             elif len(kinds_seen) > 1:
                 out.cls("unjudged:several-errors-order")
         return out
@@ -666,6 +683,7 @@ def _tok(v):
 
 CPROPS = ["a", "b", "c", "d", "e"]
 BUILTIN_READS = ["width", "yaw", "length"]
+OUT_PROPS = CPROPS + ["ghost", "width", "length", "yaw"]
 
 
 @st.composite
@@ -703,7 +721,7 @@ def class_cases(draw):
         classes.append(body)
     withs = []
     for _ in range(draw(st.integers(0, 4))):
-        p = draw(st.sampled_from(CPROPS + ["ghost", "width", "yaw"]))
+        p = draw(st.sampled_from(CPROPS + ["ghost", "width", "length"]))
         withs.append([p, draw(st.integers(10, 99))])
     return {"family": "classes", "mode2D": draw(st.sampled_from([False, False, True])),
             "classes": classes, "withs": withs}
@@ -728,9 +746,9 @@ def emit_classes(case):
     for perm in itertools.permutations(range(len(specs))):
         sl = ", ".join(["at (0, 0)"] + [specs[i] for i in perm]) if True else ""
         lines.append("try:")
-        lines.append(f"    _o = new {top} {sl}, with allowCollisions True")
+        lines.append(f"    _o = new {top} {sl}, with allowCollisions True, with requireVisible False")
         lines.append("    RESULTS.append(['ok', {p: _get(_o, p) for p in "
-                     f"{CPROPS + ['ghost', 'width', 'yaw']!r}" + "}])")
+                     f"{OUT_PROPS!r}" + "}])")
         lines.append("except Exception as _e:")
         lines.append("    RESULTS.append(['error', _e])")
     lines.append("param results = RESULTS")
@@ -773,10 +791,9 @@ def ref_classes(case):
         for d in use:
             deps.update(t[1] for t in d["terms"] if t[0] == "self")
         defaults[p] = sorted(deps)
-    if not kinds:
-        r = c06_ref.resolve(specs, defaults, sorted(finals))
-        if r["status"] == "error":
-            kinds |= r["kinds"]
+    r = c06_ref.resolve(list({sp["name"]: sp for sp in specs}.values()), defaults, sorted(finals))
+    if r["status"] == "error":
+        kinds |= r["kinds"]
     if kinds:
         return "error", kinds
     vals = {}
@@ -799,7 +816,7 @@ def ref_classes(case):
         return v
 
     out = {}
-    for p in CPROPS + ["ghost", "width", "yaw"]:
+    for p in OUT_PROPS:
         if p in withs or p in own or p in builtin_vals:
             out[p] = value(p)
         else:
@@ -844,7 +861,8 @@ def judge_classes(case):
         if "dynamic" in feats and kind in ("missing-dependency", "cyclic"):
             # defining a class with a dynamic property evaluates all defaults without any
             # specifier; what that should do with defaults that need one is not documented
-            if ref_classes(dict(case, withs=[]))[0] == "error":
+            if any(ref_classes(dict(case, classes=case["classes"][:k + 1], withs=[]))[0] == "error"
+                   for k in range(len(case["classes"]))):
                 out.cls("unjudged:dynamic-defaults-evaluated-at-class-definition")
                 return out
     obs = []
@@ -932,7 +950,7 @@ def replay(case):
 
 
 def plan(tier, seed, jobs):
-    n = 250 if tier == "quick" else 4000
+    n = 150 if tier == "quick" else 2500
     return [{"seed": seed * 1000 + k, "n": n, "k": k, "of": jobs, "base_seed": seed}
             for k in range(jobs)]
 
